@@ -291,6 +291,20 @@ func runC03(p *an.Prog, r *an.Run, tier string) {
 		}
 	}
 	r.Floor("low-balance-sites", n, 2)
+	checkNoBypass(p, r, onClient, nil)
+	{
+		var debit ssa.CallInstruction
+		for _, c := range an.Calls(onUpdate, false) {
+			if isLedgerWriteCall(c) {
+				if a := methodArgs(c); len(a) == 2 && negCallOf(p, a[1]) != nil {
+					debit = c
+				}
+			}
+		}
+		if debit != nil {
+			checkNoBypass(p, r, onUpdate, debit)
+		}
+	}
 
 	// cutoff
 	upd := p.Method("pool", "VipnodePool", "Update")
@@ -306,6 +320,18 @@ func runC03(p *an.Prog, r *an.Run, tier string) {
 		return
 	}
 	var bad []string
+	var lbTypes []types.Type
+	for _, fn := range p.Repo {
+		for _, lb := range lowBalanceReturns(fn) {
+			for _, res := range an.RetResults(lb.Ret) {
+				if mi, ok := res.(*ssa.MakeInterface); ok {
+					if n := namedOf(mi.X.Type()); n != nil && n.Obj().Name() == "LowBalanceError" {
+						lbTypes = append(lbTypes, mi.X.Type())
+					}
+				}
+			}
+		}
+	}
 	errVals := an.ErrValues(onUpd[0])
 	var lbEdge *ssa.BasicBlock
 	for _, ev := range errVals {
@@ -315,6 +341,17 @@ func runC03(p *an.Prog, r *an.Run, tier string) {
 				continue
 			}
 			if n := namedOf(ta.AssertedType); n == nil || n.Obj().Name() != "LowBalanceError" {
+				continue
+			}
+			// the asserted type must be a dynamic type the balance manager actually returns
+			matches := false
+			for _, t := range lbTypes {
+				if types.Identical(t, ta.AssertedType) {
+					matches = true
+				}
+			}
+			if !matches {
+				bad = append(bad, "the error is tested against "+ta.AssertedType.String()+", but the balance manager returns "+typeList(lbTypes)+": the low-balance branch can never be taken")
 				continue
 			}
 			for _, r2 := range *ta.Referrers() {
@@ -926,4 +963,119 @@ func bigRoot(v ssa.Value) ssa.Value {
 		}
 		return root
 	}
+}
+
+func typeList(ts []types.Type) string {
+	var ss []string
+	for _, t := range ts {
+		ss = append(ss, t.String())
+	}
+	return strings.Join(dedup(ss), ", ")
+}
+
+// checkNoBypass: the only ways to accept (return a nil error) are MinBalance == nil,
+// the node being a host, or the balance comparison's non-refusing edge. Any other
+// accepting path (e.g. "minimum <= 0 counts as unset") lets a client below the
+// configured minimum through. When from is non-nil the search starts at its
+// success edges (OnUpdate: after the debit), otherwise at the function entry.
+func checkNoBypass(p *an.Prog, r *an.Run, fn *ssa.Function, from ssa.CallInstruction) {
+	node := nodeParam(fn)
+	cut := map[an.Edge]bool{}
+	nCmp := 0
+	an.AllInstrs(fn, func(in ssa.Instruction) {
+		iff, ok := in.(*ssa.If)
+		if !ok {
+			return
+		}
+		b := iff.Block()
+		// IsHost
+		v, w := iff.Cond, true
+		for {
+			if u, ok := v.(*ssa.UnOp); ok && u.Op == token.NOT {
+				v, w = u.X, !w
+				continue
+			}
+			break
+		}
+		if node != nil && isFieldOfParam(v, "IsHost", node) {
+			if w {
+				cut[an.Edge{From: b, To: b.Succs[0]}] = true
+			} else {
+				cut[an.Edge{From: b, To: b.Succs[1]}] = true
+			}
+			return
+		}
+		rel, ok := an.NormCond(iff.Cond)
+		if !ok {
+			return
+		}
+		lMin := derivesField(p, rel.L, "", "MinBalance")
+		rMin := derivesField(p, rel.R, "", "MinBalance")
+		switch {
+		case (rel.Op == token.EQL || rel.Op == token.NEQ) && ((lMin && isNilValue(rel.R)) || (rMin && isNilValue(rel.L))):
+			if rel.Op == token.EQL {
+				cut[an.Edge{From: b, To: b.Succs[0]}] = true
+			} else {
+				cut[an.Edge{From: b, To: b.Succs[1]}] = true
+			}
+		case rel.Kind == "bigcmp" && lMin != rMin:
+			if lMin {
+				rel = rel.Swap()
+			}
+			// refusing edge: balance < min ; the other edge is the legitimate accept
+			nCmp++
+			switch rel.Op {
+			case token.LSS, token.LEQ:
+				cut[an.Edge{From: b, To: b.Succs[1]}] = true
+			case token.GEQ, token.GTR:
+				cut[an.Edge{From: b, To: b.Succs[0]}] = true
+			}
+		}
+	})
+	isAccept := func(in ssa.Instruction) bool {
+		ret, ok := in.(*ssa.Return)
+		if !ok {
+			return false
+		}
+		rr := an.RetResults(ret)
+		if len(rr) == 0 {
+			return true
+		}
+		res := rr[len(rr)-1]
+		if c, ok := res.(*ssa.Const); ok && c.IsNil() {
+			return true
+		}
+		return false
+	}
+	var found ssa.Instruction
+	if from == nil {
+		found = an.PathAvoiding(fn, nil, nil, isAccept, cut)
+	} else {
+		for _, e := range an.ErrEdges(from).Succ {
+			if in := pathFromBlockCut(fn, e.To, isAccept, cut); in != nil {
+				found = in
+			}
+		}
+	}
+	name := an.FuncName(fn)
+	if nCmp == 0 {
+		r.Fail("no-bypass", name, fn.Pos(), "no comparison with MinBalance found")
+		return
+	}
+	if found != nil {
+		r.Fail("no-bypass", name, found.Pos(), "the node is accepted at %s on a path that is neither 'MinBalance unset', 'node is a host' nor 'balance >= MinBalance': some configured minimum (e.g. zero or negative) is silently not enforced", p.Pos(found.Pos()))
+	} else {
+		r.Ok("no-bypass", name, fn.Pos(), "acceptance only via MinBalance == nil, IsHost, or balance >= MinBalance")
+	}
+}
+
+func pathFromBlockCut(fn *ssa.Function, b *ssa.BasicBlock, bad func(ssa.Instruction) bool, cut map[an.Edge]bool) ssa.Instruction {
+	if len(b.Instrs) == 0 {
+		return nil
+	}
+	first := b.Instrs[0]
+	if bad(first) {
+		return first
+	}
+	return an.PathAvoiding(fn, first, nil, bad, cut)
 }
